@@ -16,6 +16,7 @@ MC_CFG = """CONSTANTS Dg = {D}
  Scalars <- {scal}
  CmpScalars <- {cmps}
  ReshapeCat <- {rs}
+ TileCat <- {tiles}
  MaxLen = {maxlen}
  MaxObjs = {maxobjs}
  MaxAbs = 200000
@@ -30,9 +31,9 @@ CHECK_DEADLOCK FALSE
 """
 
 
-def cfg(D, P, pool, acts, idx="IdxSmall", scal="ScalOne", rs="NoRs", maxlen=2, maxobjs=5, emit=True, cmps="NoScal"):
+def cfg(D, P, pool, acts, idx="IdxSmall", scal="ScalOne", rs="NoRs", maxlen=2, maxobjs=5, emit=True, cmps="NoScal", tiles="NoTiles"):
     return MC_CFG.format(D=D, P=P, pool=pool, acts=acts, idx=idx, scal=scal, rs=rs, maxlen=maxlen,
-                         maxobjs=maxobjs, emit="TRUE" if emit else "FALSE", cmps=cmps)
+                         maxobjs=maxobjs, emit="TRUE" if emit else "FALSE", cmps=cmps, tiles=tiles)
 
 
 def py_index(ix):
@@ -84,6 +85,7 @@ class Replayer:
         self.algopy = algopy
         self.variant = variant
         self.slicewise = slicewise
+        self.noalias = set()
         self.objs = []
         for o in init_objs:
             nums = [to_num(v) for v in o["vals"]]
@@ -165,6 +167,37 @@ class Replayer:
             res = al.sum(X[i], axis=ax) if self.variant % 2 == 0 else (X[i].sum(axis=ax) if ax is not None else numpy.sum(X[i]))
             if self.slicewise:
                 self.slice_check(res, X[i], lambda s: numpy.sum(s, axis=ax), "sum", exact=False)
+        elif a == "tile":
+            reps = tuple(rec["reps"]) if len(rec["reps"]) > 1 or self.variant % 2 else int(rec["reps"][0])
+            res = al.tile(X[i], reps)
+            if self.slicewise:
+                self.slice_check(res, X[i], lambda s_: numpy.tile(s_, reps), "tile")
+        elif a == "diag":
+            k = int(rec["k"])
+            res = al.diag(X[i]) if k == 0 else al.diag(X[i], k)
+            if self.slicewise:
+                self.slice_check(res, X[i], lambda s_: numpy.diag(s_, k), "diag")
+        elif a in ("triu", "tril"):
+            k = int(rec["k"])
+            res = getattr(al, a)(X[i]) if k == 0 else getattr(al, a)(X[i], k)
+            if self.slicewise:
+                self.slice_check(res, X[i], lambda s_: getattr(numpy, a)(s_, k), a)
+        elif a == "trace":
+            res = al.trace(X[i])
+            if self.slicewise:
+                self.slice_check(res, X[i], lambda s_: numpy.trace(s_), "trace", exact=False)
+        elif a in ("zeros", "ones"):
+            es = tuple(rec["es"])
+            res = getattr(al, a)(es, dtype=X[i]) if self.variant % 2 == 0 or len(es) != 1 else getattr(al, a)(es[0], dtype=X[i])
+        elif a in ("conjugate", "real", "imag"):
+            res = getattr(al, a)(X[i])
+            self.noalias.add(len(self.objs))        # numpy.real / imag / conjugate may or may not return views: not part of the property
+            if self.slicewise:
+                self.slice_check(res, X[i], lambda s_: getattr(numpy, a)(s_), a)
+        elif a in ("fft", "ifft"):
+            res = getattr(al.fft, a)(X[i])
+            if self.slicewise:
+                self.slice_check(res, X[i], lambda s_: getattr(numpy.fft, a)(s_), a, exact=False)
         elif a == "cmp":
             import operator as _op
             relf = {"lt": _op.lt, "le": _op.le, "gt": _op.gt, "ge": _op.ge, "eq": _op.eq, "ne": _op.ne}[rec["rel"]]
@@ -212,6 +245,8 @@ class Replayer:
                     raise Mismatch("value", "object %d element %d: got %r, spec %s" % (k + 1, n, v, to_frac(q)))
             if so.get("real") is False and not numpy.iscomplexobj(d):
                 raise Mismatch("dtype", "object %d: the imaginary part was dropped (dtype %s)" % (k + 1, d.dtype))
+            if k in self.noalias:
+                continue
             ad = addresses(d)
             for n, (adr, c) in enumerate(zip(ad, so["cells"])):
                 key = (so["buf"], c)
@@ -286,6 +321,10 @@ def act_sig(rec, prefix, init):
         s += ":%d" % rec["n"]
     if a == "sum":
         s += ":axis=%s" % ("None" if rec["axis"] == NONE else rec["axis"])
+    if a in ("diag", "triu", "tril"):
+        s += ":k=%d" % rec["k"]
+    if a == "tile":
+        s += ":reps=%s" % (rec["reps"],)
     if a == "cmp":
         s += ":" + rec["rel"] + (":scalar" if not rec["j"] else "")
     return s
